@@ -1,12 +1,19 @@
 #!/bin/bash
 # Re-applies every stored seeded change to /repo (one at a time, always reverted) and runs the
 # checks that are recorded as catching it; prints one line per (seed, check). rc=1 is the expected outcome.
+# ONLY="C01 C13" restricts the run to those checks (a partial regression after changing only them);
+# SINCE="round 18" additionally keeps every check of the seeds whose note mentions that round.
 cd /verif
 rm -rf /verif/target/evidence.bak; cp -r /verif/evidence /verif/target/evidence.bak
 for d in seeded/*/; do
   n=$(basename "$d")
   [ -f "$d/patch.diff" ] || continue
-  checks=$(python3 -c "import json;print(' '.join(json.load(open('$d/meta.json'))['caught_by']))")
+  checks=$(python3 -c "
+import json,os
+m=json.load(open('$d/meta.json')); only=os.environ.get('ONLY','').split(); since=os.environ.get('SINCE','')
+keep=[c for c in m['caught_by'] if not only or c in only or (since and since in m.get('note',''))]
+print(' '.join(keep))")
+  [ -n "$checks" ] || continue
   tier=$(python3 -c "import json;print(json.load(open('$d/meta.json')).get('tier','quick'))")
   if ! git -C /repo diff --quiet; then echo "repo dirty"; exit 2; fi
   git -C /repo apply "/verif/$d/patch.diff" || { echo "$n: PATCH DOES NOT APPLY"; continue; }
